@@ -15,30 +15,31 @@ import (
 	"google.golang.org/protobuf/types/dynamicpb"
 )
 
-var reErrNorm = regexp.MustCompile(`'[^']*'|"[^"]*"|\d+`)
 
-// errClass maps a reference-validator message to a small class (no values, no prose details).
-func errClass(e string) string {
-	path, msg, _ := strings.Cut(e, ": ")
-	path = regexp.MustCompile(`\d+`).ReplaceAllString(path, "*")
-	switch {
-	case strings.Contains(msg, "is not of type"):
-		t := msg[strings.Index(msg, "is not of type"):]
-		return path + ":type(" + strings.Trim(strings.TrimPrefix(t, "is not of type "), "'") + ")"
-	case strings.Contains(msg, "is not one of"):
-		return path + ":enum"
-	case strings.Contains(msg, "is valid under each of"):
-		return path + ":oneOf-ambiguous"
-	case strings.Contains(msg, "is not valid under any of the given schemas"):
-		return path + ":oneOf-none"
-	case strings.Contains(msg, "is a required property"):
-		return path + ":required(" + strings.Trim(strings.TrimSuffix(msg, " is a required property"), "'") + ")"
-	case strings.Contains(msg, "Additional properties"):
-		return path + ":additionalProperties"
-	case strings.Contains(msg, "validator exception"):
+// errKind maps a reference-validator message to a small class (no values, no paths, no prose).
+func errKind(e string) string {
+	if i := strings.LastIndex(e, "KIND="); i >= 0 {
+		k := e[i+5:]
+		switch k {
+		case "minimum", "maximum", "exclusiveMinimum", "exclusiveMaximum":
+			return "bound"
+		case "minLength", "maxLength":
+			return "length"
+		}
+		return k
+	}
+	if strings.Contains(e, "validator exception") {
 		return "validator-exception"
 	}
-	return path + ":" + reErrNorm.ReplaceAllString(msg, "_")
+	return "other"
+}
+
+func errClass(e string) string {
+	path, _, _ := strings.Cut(e, ": ")
+	if len(path) > 60 {
+		path = path[:60]
+	}
+	return regexp.MustCompile(`\d+`).ReplaceAllString(path, "*") + ":" + errKind(e)
 }
 
 type c06Case struct {
@@ -278,14 +279,11 @@ func CheckC06(run *Run) {
 		cr.Unmodelled = "instance/schema pair evaluated by the reference validator only"
 		if !holds {
 			kinds := map[string]bool{}
-			for _, cl := range classes {
-				k := cl
-				if strings.HasPrefix(cl, "undescribed:") {
-					k = "undescribed-property"
-				} else if i := strings.LastIndex(cl, ":"); i >= 0 {
-					k = cl[i+1:]
-				}
-				kinds[k] = true
+			for _, e := range v.Errors {
+				kinds[errKind(e)] = true
+			}
+			if len(v.Undescribed) > 0 {
+				kinds["undescribed-property"] = true
 			}
 			fam := "body"
 			if strings.HasSuffix(c.family, "-parameter") {
